@@ -12,7 +12,7 @@ from vlib import log
 ASSUME = [
     "renderings: Go structures, JSON, YAML (github.com/jsccast/yaml, as the hosts use), patterns as JSON text under patternSyntax json, compiled once / twice / forced, compiled-serialised-reloaded, sio.ResolveSpecSource inline / file:// JSON / file:// YAML",
     "behaviour = per message (delivered one at a time) the resulting state and emitted messages over three message sequences; error texts compared by presence",
-    "mcrew's GetSpec path (YAML files with inlines) is not among the renderings yet",
+    "mcrew-getspec: the YAML rendering is written to a spec directory and loaded by the real Service.GetSpec (driver compiled into cmd/mcrew by overlay), then walked over the same message sequences",
 ]
 
 
@@ -22,7 +22,22 @@ def run(pid, tier, seed, replay):
     drv = vlib.build_driver("loaderdrv", wd)
     rep = vlib.Report(pid)
     out = os.path.join(wd, "load.ndjson")
-    vlib.run([drv, "gen", str(600 if tier == "quick" else 12000), str(seed), out], timeout=7000)
+    exp = os.path.join(wd, "getspec")
+    os.makedirs(exp, exist_ok=True)
+    vlib.run([drv, "gen", str(600 if tier == "quick" else 12000), str(seed), out], timeout=7000, env=dict(os.environ, LOADER_EXPORT=exp))
+    # the same YAML documents through cmd/mcrew's Service.GetSpec (overlay driver inside cmd/mcrew)
+    import subprocess
+    import system_checks
+    files = [os.path.join(vlib.VERIF, f) for f in system_checks.MCREW_DRIVER]
+    binary = vlib.build_overlay_test(wd, "cmd/mcrew", files)
+    gout = os.path.join(exp, "getspec_out.ndjson")
+    p = subprocess.run([binary, "-test.run", "TestVerifSystem", "-test.timeout", "3000s"], cwd=exp, stdout=subprocess.PIPE, stderr=subprocess.STDOUT, text=True,
+                       env=dict(os.environ, VERIF_SYS_MODE="getspec", VERIF_SYS_DIR=exp, VERIF_OUT_FILE=gout))
+    if p.returncode != 0:
+        raise vlib.CannotRun("mcrew getspec driver failed:\n" + p.stdout[-3000:])
+    merged = os.path.join(wd, "load_merged.ndjson")
+    vlib.run([drv, "merge", out, gout, merged], timeout=3000)
+    out = merged
     out2 = os.path.join(wd, "malformed.ndjson")
     vlib.run([drv, "malformed", str(150 if tier == "quick" else 2000), str(seed), out2], timeout=7000)
     allp = os.path.join(wd, "all.ndjson")
@@ -42,7 +57,7 @@ def run(pid, tier, seed, replay):
         "states": max(1, t["distinct"]), "transitions": max(1, t["generated"]), "traces_validated_against_impl": t["lines"],
         "samples": [{"unknown": c["unknown"], "renderings": [r["repr"] for r in c["reps"]], "reference_behaviour": c["reps"][0]["behaviours"][:1]}],
         "evaluations": stats.get("renderings", 0), "distinct_nontrivial": stats.get("specs", 0),
-        "rule": "seeded abstract specs (3 nodes, patterns of every JSON shape incl. bare strings and bare variables, guards, actions, error settings), each in up to 13 renderings; "
+        "rule": "seeded abstract specs (3 nodes, patterns of every JSON shape incl. bare strings and bare variables, guards, actions, error settings), each in up to 16 renderings (Go structures, JSON, YAML, JSON-text patterns, compiled twice / forced / retried, serialised and reloaded, sio's loader inline / file JSON / file YAML, cmd/mcrew's GetSpec); "
                 "1 in 4 carries an unknown interpreter / branching type / pattern syntax; non-trivial = abstract specs compared",
         "judge_stats": stats, "exhaustive": False, "known_findings_hit": {k: v["count"] for k, v in rep.known.items()},
     }, ASSUME, time.time() - t0, len(rep.violations))
